@@ -233,8 +233,23 @@ def proxy_cover_rule(repo: Repo, rep: Report, rid: str) -> None:
 def size_rule(repo: Repo, rep: Report, rid: str) -> None:
     rep.rule(rid, "a union has the size of its largest member rounded up to its alignment; dumping pads to len(union) with zeros")
     fi = repo.func("types/structure.py", "UnionMetaType._write")
-    exp = [s for s in walk_body(fi.node.body) if isinstance(s, ast.Assign) and "len(cls)" in norm(s.value)]
     pads = [c for c in walk_body(fi.node.body) if isinstance(c, ast.Call) and call_name(c) == "write" and c.args and _is_zero_bytes_times(c.args[0])]
+
+    def mentions_len_cls(e: ast.AST, depth: int = 3) -> bool:
+        """The padding count is derived from len(cls), directly or through locals / a walrus binding (whatever they are called)."""
+        if "len(cls)" in norm(e):
+            return True
+        if depth == 0:
+            return False
+        for nm in {x.id for x in ast.walk(e) if isinstance(x, ast.Name)}:
+            for d_ in walk_body(fi.node.body):
+                if isinstance(d_, ast.Assign) and any(isinstance(t, ast.Name) and t.id == nm for t in d_.targets) and mentions_len_cls(d_.value, depth - 1):
+                    return True
+                if isinstance(d_, ast.NamedExpr) and d_.target.id == nm and mentions_len_cls(d_.value, depth - 1):
+                    return True
+        return False
+
+    exp = [c for c in pads if mentions_len_cls(c.args[0])]
     rep.check(bool(exp) and bool(pads), rid, f"{fi.key}:pad", "pads to offset + len(cls) with zeros", "union writer no longer pads to len(cls) with zeros", fi.loc())
     from ..boolalg import Formula
 
